@@ -24,6 +24,11 @@ from harness import splineoracle as so
 LEVEL = "translation_validation"
 
 
+def _stale(shape, dtype=float):
+    """output arguments are handed over with stale contents: a kernel must overwrite, not accumulate into, its output"""
+    return np.full(shape, -7.5, dtype=dtype)
+
+
 def build(ctx, work):
     dst = os.path.join(work, "repo")
     subprocess.run(["rsync", "-a", "--exclude", ".git", "--exclude", "*.egg-info", "--exclude", "__pycache__", "--exclude", "*.so",
@@ -51,8 +56,8 @@ def spline_cases(spaces, rng, cases, exact):
             for x in xs:
                 cases.append({"mod": mod, "fn": "cu_find_span", "args": [float(kn[0]), float(kn[1]), float(kn[2]), x, int(kn[3])]})
             for off in (0.0, 0.25, 1.0, rng.random()):
-                cases.append({"mod": mod, "fn": "cu_basis_funs", "args": [3, off, np.zeros(4)]})
-                cases.append({"mod": mod, "fn": "cu_basis_funs_1st_der", "args": [3, off, float(kn[2]), np.zeros(4)]})
+                cases.append({"mod": mod, "fn": "cu_basis_funs", "args": [3, off, _stale(4)]})
+                cases.append({"mod": mod, "fn": "cu_basis_funs_1st_der", "args": [3, off, float(kn[2]), _stale(4)]})
         else:
             mod, pre = "spline_eval_funcs", "nu"
             for x in xs:
@@ -61,23 +66,23 @@ def spline_cases(spaces, rng, cases, exact):
                 span = None
                 from pygyro.splines import spline_eval_funcs as nu
                 span = int(nu.nu_find_span(kn, sp.p, x))
-                cases.append({"mod": mod, "fn": "nu_basis_funs", "args": [kn, sp.p, x, span, np.zeros(sp.p + 1)]})
-                cases.append({"mod": mod, "fn": "nu_basis_funs_1st_der", "args": [kn, sp.p, x, span, np.zeros(sp.p + 1)]})
+                cases.append({"mod": mod, "fn": "nu_basis_funs", "args": [kn, sp.p, x, span, _stale(sp.p + 1)]})
+                cases.append({"mod": mod, "fn": "nu_basis_funs_1st_der", "args": [kn, sp.p, x, span, _stale(sp.p + 1)]})
         for der in (0, 1):
             for x in xs:
                 cases.append({"mod": mod, "fn": pre + "_eval_spline_1d_scalar", "args": [x, kn, sp.p, c, der]})
                 xi = min(max(so.to_int_coord(x, a, h), Fr(sp.br[0])), Fr(sp.br[-1]))
                 if not (sp.p == 1 and der == 1):
                     exact[len(cases) - 1] = float(sp.spline([Fr(v) for v in c], xi, der)) / h ** der
-            cases.append({"mod": mod, "fn": pre + "_eval_spline_1d_vector", "args": [X, kn, sp.p, c, np.zeros(len(X)), der]})
+            cases.append({"mod": mod, "fn": pre + "_eval_spline_1d_vector", "args": [X, kn, sp.p, c, _stale(len(X)), der]})
         # 2-D with itself
         c2 = np.array([[float(rng.randint(-5, 5)) for _ in range(sp.nb)] for _ in range(sp.nb)])
         for d1, d2 in ((0, 0), (1, 0), (0, 1), (1, 1)):
             if sp.p == 1 and (d1 or d2):
                 continue       # one-sided derivatives of degree-1 splines at breakpoints: compared in 1-D only
             cases.append({"mod": mod, "fn": pre + "_eval_spline_2d_scalar", "args": [xs[1], xs[-2], kn, sp.p, kn, sp.p, c2, d1, d2]})
-            cases.append({"mod": mod, "fn": pre + "_eval_spline_2d_cross", "args": [X, X[::2].copy(), kn, sp.p, kn, sp.p, c2, np.zeros((len(X), len(X[::2]))), d1, d2]})
-            cases.append({"mod": mod, "fn": pre + "_eval_spline_2d_vector", "args": [X, X[::-1].copy(), kn, sp.p, kn, sp.p, c2, np.zeros(len(X)), d1, d2]})
+            cases.append({"mod": mod, "fn": pre + "_eval_spline_2d_cross", "args": [X, X[::2].copy(), kn, sp.p, kn, sp.p, c2, _stale((len(X), len(X[::2]))), d1, d2]})
+            cases.append({"mod": mod, "fn": pre + "_eval_spline_2d_vector", "args": [X, X[::-1].copy(), kn, sp.p, kn, sp.p, c2, _stale(len(X)), d1, d2]})
         # 2-D with ANOTHER space of a different degree in the second direction (general path only: the fast path is cubic x cubic)
         if sp.kind != "cu":
             others = [o for o in spaces if o.kind != "cu" and o.p != sp.p and o.p >= 2]
@@ -91,9 +96,9 @@ def spline_cases(spaces, rng, cases, exact):
                 Xi = X[1:-1]
                 for d1, d2 in ((0, 0), (1, 0), (0, 1), (1, 1)):
                     cases.append({"mod": mod, "fn": "nu_eval_spline_2d_scalar", "args": [float(Xi[1]), float(Y[-2]), kn, sp.p, okn, o.p, c3, d1, d2]})
-                    cases.append({"mod": mod, "fn": "nu_eval_spline_2d_cross", "args": [Xi.copy(), Y.copy(), kn, sp.p, okn, o.p, c3, np.zeros((len(Xi), len(Y))), d1, d2]})
+                    cases.append({"mod": mod, "fn": "nu_eval_spline_2d_cross", "args": [Xi.copy(), Y.copy(), kn, sp.p, okn, o.p, c3, _stale((len(Xi), len(Y))), d1, d2]})
                     n = min(len(Xi), len(Y))
-                    cases.append({"mod": mod, "fn": "nu_eval_spline_2d_vector", "args": [Xi[:n].copy(), Y[:n][::-1].copy(), kn, sp.p, okn, o.p, c3, np.zeros(n), d1, d2]})
+                    cases.append({"mod": mod, "fn": "nu_eval_spline_2d_vector", "args": [Xi[:n].copy(), Y[:n][::-1].copy(), kn, sp.p, okn, o.p, c3, _stale(n), d1, d2]})
 
 
 def advection_cases(rng, cases):
@@ -173,8 +178,8 @@ def misc_cases(rng, cases):
         g = np.random.RandomState(t).uniform(-1, 1, (n, m, p, nc))
         fe = np.random.RandomState(t + 100).uniform(-1, 1, (n, nc))
         for dtype in (float, np.complex128):
-            cases.append({"mod": "poisson_tools", "fn": "get_rho", "args": [np.zeros((n, m, p), dtype=dtype), g, q]})
-            cases.append({"mod": "poisson_tools", "fn": "get_perturbed_rho", "args": [np.zeros((n, m, p), dtype=dtype), fe, g, q]})
+            cases.append({"mod": "poisson_tools", "fn": "get_rho", "args": [np.full((n, m, p), (-7.0 - 5.0j) if dtype is complex else -7.0, dtype=dtype), g, q]})       # stale output storage
+            cases.append({"mod": "poisson_tools", "fn": "get_perturbed_rho", "args": [np.full((n, m, p), (3.0 + 2.0j) if dtype is complex else 3.0, dtype=dtype), fe, g, q]})
     from pygyro.initialisation.constants import Constants
     c = Constants()
     P = [c.CN0, c.kN0, c.deltaRN0, c.rp, c.CTi, c.kTi, c.deltaRTi]
@@ -193,10 +198,10 @@ def misc_cases(rng, cases):
     vv = np.linspace(c.vMin, c.vMax, 6)
     rr = np.linspace(c.rMin, c.rMax, 5)
     tail = [3, 1, 1e-2] + P + [c.deltaR, c.R0]
-    cases.append({"mod": "initialiser_funcs", "fn": "init_f_flux", "args": [np.zeros((5, 4)), 4.4, th, z, 1.3] + tail})
-    cases.append({"mod": "initialiser_funcs", "fn": "init_f_pol", "args": [np.zeros((5, 5)), rr, th, 33.0, -2.0] + tail})
-    cases.append({"mod": "initialiser_funcs", "fn": "init_f_vpar", "args": [np.zeros((5, 6)), 7.7, th, 500.0, vv] + tail})
-    cases.append({"mod": "initialiser_funcs", "fn": "feq_vector", "args": [np.zeros((5, 6)), rr, vv] + P})
+    cases.append({"mod": "initialiser_funcs", "fn": "init_f_flux", "args": [_stale((5, 4)), 4.4, th, z, 1.3] + tail})
+    cases.append({"mod": "initialiser_funcs", "fn": "init_f_pol", "args": [_stale((5, 5)), rr, th, 33.0, -2.0] + tail})
+    cases.append({"mod": "initialiser_funcs", "fn": "init_f_vpar", "args": [_stale((5, 6)), 7.7, th, 500.0, vv] + tail})
+    cases.append({"mod": "initialiser_funcs", "fn": "feq_vector", "args": [_stale((5, 6)), rr, vv] + P})
 
 
 def run_worker(root, variant, cases_p, out_p):
